@@ -267,26 +267,47 @@ where
     F: FnOnce(Sh) -> Fut,
     Fut: Future<Output = Result<(), Violation>>,
 {
+    run_sim_opts(cx, false, WATCHDOG_S, f)
+}
+
+/// `io`: the runtime also gets tokio's I/O driver, for the batches whose bearer is a real kernel
+/// socketpair (the socket-specific arms of `Bearer`). With a paused clock tokio jumps to the next timer
+/// on every park, also when the park delivered socket readiness, so such batches take a longer watchdog.
+pub fn run_sim_opts<F, Fut>(cx: &mut RunCx, io: bool, watchdog_s: u64, f: F) -> Result<(), Violation>
+where
+    F: FnOnce(Sh) -> Fut,
+    Fut: Future<Output = Result<(), Violation>>,
+{
     let seed = cx.ch.u64("tokio.rng_seed");
     let ch = std::mem::replace(&mut cx.ch, Choices::replay(vec![]));
     let tr = std::mem::replace(&mut cx.tr, Trace::new(false));
     let st = std::mem::take(&mut cx.st);
     let sh: Sh = Arc::new(Mutex::new(Shared { ch, tr, st }));
-    let rt = tokio::runtime::Builder::new_current_thread()
-        .enable_time()
-        .start_paused(true)
-        .rng_seed(tokio::runtime::RngSeed::from_bytes(&seed.to_le_bytes()))
-        .build()
-        .expect("runtime");
+    let mut b = tokio::runtime::Builder::new_current_thread();
+    b.enable_time().start_paused(true).rng_seed(tokio::runtime::RngSeed::from_bytes(&seed.to_le_bytes()));
+    if io {
+        b.enable_io();
+    }
+    let rt = b.build().expect("runtime");
     let sh2 = sh.clone();
     let res = rt.block_on(async move {
         let t0 = tokio::time::Instant::now();
-        let r = tokio::time::timeout(std::time::Duration::from_secs(WATCHDOG_S), f(sh2.clone())).await;
+        if io {
+            // tokio's paused clock jumps to the next timer on every park, also when the park delivered
+            // socket readiness. A 10 ms ticker bounds each jump, so that simulated time-outs (and the
+            // watchdog) measure parks without progress rather than firing on the first socket round trip.
+            tokio::spawn(async {
+                loop {
+                    tokio::time::sleep(std::time::Duration::from_millis(10)).await;
+                }
+            });
+        }
+        let r = tokio::time::timeout(std::time::Duration::from_secs(watchdog_s), f(sh2.clone())).await;
         let el = t0.elapsed();
         sh2.lock().unwrap().st.sim_time_ns += el.as_nanos() as u64;
         match r {
             Ok(r) => r,
-            Err(_) => Err(Violation::new("stuck", "watchdog", format!("no progress: the simulated-time watchdog ({WATCHDOG_S} s) fired with all tasks blocked"))),
+            Err(_) => Err(Violation::new("stuck", "watchdog", format!("no progress: the simulated-time watchdog ({watchdog_s} s) fired with all tasks blocked"))),
         }
     });
     drop(rt); // aborts and drops any task still alive (plexer loops)
@@ -321,4 +342,21 @@ pub fn bearer1(r: SimRead, w: SimWrite) -> pallas_network::multiplexer::Bearer {
 }
 pub fn bearer2(r: SimRead, w: SimWrite) -> pallas_network2::bearer::Bearer {
     pallas_network2::bearer::Bearer::Sim(Box::new(r), Box::new(w))
+}
+
+/// A connected pair of kernel Unix stream sockets with the given send/receive buffer sizes
+/// (None = kernel default). Must be called inside a runtime that has the I/O driver.
+pub fn unix_pair(sndbuf: Option<usize>, rcvbuf: Option<usize>) -> (tokio::net::UnixStream, tokio::net::UnixStream) {
+    use std::os::fd::AsRawFd;
+    let (a, b) = tokio::net::UnixStream::pair().expect("socketpair");
+    for s in [&a, &b] {
+        for (opt, v) in [(libc::SO_SNDBUF, sndbuf), (libc::SO_RCVBUF, rcvbuf)] {
+            if let Some(v) = v {
+                let v = v as libc::c_int;
+                let rc = unsafe { libc::setsockopt(s.as_raw_fd(), libc::SOL_SOCKET, opt, &v as *const _ as *const libc::c_void, std::mem::size_of::<libc::c_int>() as u32) };
+                assert_eq!(rc, 0, "setsockopt");
+            }
+        }
+    }
+    (a, b)
 }
